@@ -775,6 +775,7 @@ nnls_normal_block3(cholmod_sparse *AtA, cholmod_dense *Atb, int verbose,
         int i, j, k;
         int iter, max_iter, solves, residual_calcs;
         int feasible;
+        int full_step;
         clock_t t0, t1;
         double kkt_tolerance, y_min, residual;
 
@@ -807,6 +808,12 @@ nnls_normal_block3(cholmod_sparse *AtA, cholmod_dense *Atb, int verbose,
 
         nF = nG = nH1 = nH2 = 0;
         nGprime = -1;
+        /*
+         * True while x[F] is the solution of the reduced system on F, i.e. the
+         * last inner step accepted the unconstrained solution rather than a
+         * line-search step that stopped at a constraint.
+         */
+        full_step = true;
 
         t0 = clock();
 
@@ -915,10 +922,15 @@ nnls_normal_block3(cholmod_sparse *AtA, cholmod_dense *Atb, int verbose,
                                 y_min = ((double *)(y->x))[H2[i]];
 
                 /*
-                 * If we've satisfied the KKT conditions, we're done. 
+                 * If we've satisfied the KKT conditions, we're done. The
+                 * multipliers only certify optimality when x[F] solves the
+                 * reduced system: after a line-search step that stopped at a
+                 * constraint (or with coefficients still waiting in H1 to be
+                 * bound) the gradient on F is not zero, so solve again on the
+                 * updated passive set instead of returning.
                  */
 
-                if (nH2 == 0) break;
+                if (nH2 == 0 && nH1 == 0 && full_step) break;
 
                 ninf = nH1 + nH2;
 
@@ -1023,6 +1035,7 @@ nnls_normal_block3(cholmod_sparse *AtA, cholmod_dense *Atb, int verbose,
                                             ((double*)(x_F->x))[i];
                                 cholmod_l_free_dense(&x_F, c);
                                 feasible = true;
+                                full_step = true;
 
                                 if (verbose)
                                         printf("\tSolution entirely "
@@ -1086,6 +1099,7 @@ nnls_normal_block3(cholmod_sparse *AtA, cholmod_dense *Atb, int verbose,
                                                     ((double*)(Atb->x))[F[i]];
                                 }
 
+                                full_step = false;
                                 feasible = walk_descents(AtA_F, Atb_F, x, x_F,
                                     F, &nF, H1, &nH1, &residual,
                                     &residual_calcs, verbose, c);
